@@ -204,7 +204,37 @@ reg_list!(all_key_ops, iana::KeyOperation);
 reg_list!(all_curves, iana::EllipticCurve);
 reg_list!(all_claim_names, iana::CwtClaimName);
 
+/// Byte strings that look like real key material: SEC1 elliptic-curve points (uncompressed
+/// 04||X||Y, compressed 02/03||X) for the usual field sizes, DER prefixes, all-zero and all-ff
+/// coordinates.
+fn key_material(rng: &mut Rng) -> Vec<u8> {
+    let n = *rng.pick(&[32usize, 48, 66, 28, 57]);
+    match rng.below(6) {
+        0 => {
+            let mut v = vec![0x04];
+            v.extend(pat(2 * n, 31));
+            v
+        }
+        1 => {
+            let mut v = vec![if rng.bool() { 0x02 } else { 0x03 }];
+            v.extend(pat(n, 32));
+            v
+        }
+        2 => vec![0u8; n],
+        3 => vec![0xff; n],
+        4 => {
+            let mut v = vec![0x30, 0x82, 0x01, 0x0a];
+            v.extend(pat(n, 33));
+            v
+        }
+        _ => pat(n, 34),
+    }
+}
+
 fn a_bytes(rng: &mut Rng) -> Arg {
+    if rng.chance(1, 12) {
+        return Arg::B(key_material(rng));
+    }
     if rng.chance(1, 8) {
         // any length, in particular the usual key / coordinate / nonce sizes
         let n = match rng.below(3) {
@@ -447,9 +477,9 @@ fn gen_ctor(builder: &str, rng: &mut Rng) -> Step {
         match rng.below(7) {
             0 => c("new", vec![]),
             1 => c("default", vec![]),
-            2 => c("new_ec2_pub_key", vec![a_reg(rng, CURVES, all_curves()), a_bytes(rng), a_bytes(rng)]),
+            2 => c("new_ec2_pub_key", vec![a_reg(rng, CURVES, all_curves()), if rng.chance(1, 4) { Arg::B(key_material(rng)) } else { a_bytes(rng) }, if rng.chance(1, 4) { Arg::B(vec![]) } else { a_bytes(rng) }]),
             3 => c("new_ec2_pub_key_y_sign", vec![a_reg(rng, CURVES, all_curves()), a_bytes(rng), Arg::I(rng.below(2) as i128)]),
-            4 => c("new_ec2_priv_key", vec![a_reg(rng, CURVES, all_curves()), a_bytes(rng), a_bytes(rng), a_bytes(rng)]),
+            4 => c("new_ec2_priv_key", vec![a_reg(rng, CURVES, all_curves()), if rng.chance(1, 4) { Arg::B(key_material(rng)) } else { a_bytes(rng) }, if rng.chance(1, 4) { Arg::B(vec![]) } else { a_bytes(rng) }, a_bytes(rng)]),
             5 => c("new_symmetric_key", vec![a_bytes(rng)]),
             _ => c("new_okp_key", vec![]),
         }
@@ -1531,7 +1561,7 @@ impl Engine for C19 {
     fn info(&self) -> EngineInfo {
         EngineInfo {
             level: "exploration",
-            rule: "Each run is one seeded history: a constructor (new/default/named key constructor) followed by 0-16 calls (1 history in 50: 17-64 calls, half of them repeating one method) drawn uniformly from every public method of one of the 14 builders, arguments from palettes that include empty, boundary and reserved values, mixed with every registry value found by scanning from_i64 over [-70000, 70000], random labels and byte strings of arbitrary and typical key sizes; the history is executed on the real builder and on the field-map model and every public field of build() is compared, and the built value's encoding is compared with the encoding of the same value assembled from the model through struct literals (so state that is not visible in the public fields still shows). A case is non-trivial when it has at least one call after the constructor; distinct = distinct (builder, constructor, call sequence with arguments) by 64-bit hash of the materialised trace.",
+            rule: "Each run is one seeded history: a constructor (new/default/named key constructor) followed by 0-16 calls (1 history in 50: 17-64 calls, 1 in 500: 65-300 calls, half of them repeating one method) drawn uniformly from every public method of one of the 14 builders, arguments from palettes that include empty, boundary and reserved values, mixed with every registry value found by scanning from_i64 over [-70000, 70000], random labels and byte strings of arbitrary and typical key sizes; the history is executed on the real builder and on the field-map model and every public field of build() is compared, and the built value's encoding is compared with the encoding of the same value assembled from the model through struct literals (so state that is not visible in the public fields still shows). A case is non-trivial when it has at least one call after the constructor; distinct = distinct (builder, constructor, call sequence with arguments) by 64-bit hash of the materialised trace.",
             distinct_classes: &["call-name sequences", "adjacent ordered pairs of methods per builder", "adjacent ordered triples of methods per builder", "(builder, method) reached"],
             assumptions: &[
                 "the model encodes the doc comments and the property statement (Appendix A of DESIGN.md); `param(0, ..)` is left open (either outcome accepted)",
@@ -1562,7 +1592,9 @@ impl Engine for C19 {
         t.push(gen_ctor(builder, &mut rng));
         // 1 history in 50 is long (17-64 calls) and half of those repeat one method many times
         if rng.chance(1, 50) {
-            let n = rng.range(17, 64);
+            // 1 in 10 of the long ones is very long (65-300 calls: growth boundaries of the
+            // underlying vectors, anything that counts calls)
+            let n = if rng.chance(1, 10) { rng.range(65, 300) } else { rng.range(17, 64) };
             let repeat = rng.bool();
             let first = gen_op(builder, &mut rng);
             for i in 0..n {
